@@ -43,10 +43,12 @@ pub struct Info {
     pub classes: Vec<&'static str>,
     /// short description of what was observed (goes into samples)
     pub observed: Option<Value>,
+    /// additional executions this case performed beyond the first (e.g. one per fault offset)
+    pub weight: u64,
 }
 impl Info {
     pub fn new(nontrivial: bool) -> Self {
-        Info { nontrivial, classes: vec![], observed: None }
+        Info { nontrivial, classes: vec![], observed: None, weight: 0 }
     }
     pub fn class(mut self, c: &'static str) -> Self {
         self.classes.push(c);
@@ -56,6 +58,10 @@ impl Info {
         if cond {
             self.classes.push(c);
         }
+        self
+    }
+    pub fn weight(mut self, w: u64) -> Self {
+        self.weight = w;
         self
     }
     pub fn obs(mut self, v: Value) -> Self {
@@ -401,6 +407,7 @@ fn watch_set(shard: usize, v: Option<(Instant, String, String)>) {
 }
 
 fn tally(st: &mut CheckStats, name: &str, h: u64, json_case: &str, info: &Info) {
+    st.evaluations += info.weight;
     for c in &info.classes {
         *st.classes.entry(c).or_default() += 1;
     }
